@@ -455,6 +455,9 @@ def small_programs() -> List[List[Eq]]:
         [Eq(V_('Y'), Bin('/', Bin('-', V_('X', 2), V_('X', -2)), Num('4'))), Eq(V_('Z'), Bin('+', V_('Y', -1), V_('Y', 1)))],
         [Eq(V_('A'), Bin('+', V_('X', -1), Bin('*', P_('a'), V_('B')))), Eq(V_('B'), Bin('+', V_('X', 2), V_('A', -2)))],
         [],
+        # identifiers that are soft keywords or built-in names are ordinary variable names (only reserved words are keywords)
+        [Eq(V_('match'), Bin('+', V_('case', -1), Bin('*', P_('type'), V_('print'))))],
+        [Eq(V_('type'), Bin('-', V_('match', 1), E_('case', -2)))],
     ]
     return progs
 
